@@ -1268,7 +1268,7 @@ Proof.
     destruct (ofind s (rpath ps)) as [[pi pn]|] eqn:Ep.
     + destruct (on_dir pn) eqn:Ed; [|exact Hinv]. cbn [negb]. unfold o_create_dir.
       apply (inv_create_node s ps c pi pn); assumption.
-    + destruct (o_up_loop (S (length (rpath ps))) s (rpath ps)); exact Hinv.
+    + exact Hinv.
 Qed.
 
 (* ---- OpenFile ----------------------------------------------------------------------------------------------- *)
@@ -1513,7 +1513,12 @@ Proof.
     + destruct (on_dir n) eqn:Ed.
       * right. exists (cur' ++ [c]), [], i, n. cbn [chain_paths rev]. rewrite !app_nil_r. repeat split; auto. intros c0 r [=].
       * left. eauto.
-    + rewrite (inv_os _ Hinv). rewrite (split_abs_rpath cur' c) by (apply comp_ok_nosl; apply good_comp_ok'; exact Hc).
+    + rewrite (inv_os _ Hinv).
+      assert (Hvl : Nat.leb (length (rpath (cur' ++ [c]))) (volume_name_len Linux (rpath (cur' ++ [c]))) = false).
+      { apply Nat.leb_gt. cbn [volume_name_len]. pose proof (rpath_length_ge (cur' ++ [c])) as Hl.
+        rewrite app_length in Hl. cbn [length] in Hl. lia. }
+      rewrite Hvl. clear Hvl.
+      rewrite (split_abs_rpath cur' c) by (apply comp_ok_nosl; apply good_comp_ok'; exact Hc).
       rewrite app_length in Hfuel. cbn [length] in Hfuel.
       assert (Hf' : length cur' < f) by lia.
       destruct (IH (ds ++ [rpath (cur' ++ [c])]) f Hcur' Hf') as [(r & Hr)|(cur0 & mid & i & n & Ecur & Hres & Hf & Hd & Hmiss)].
@@ -1625,12 +1630,13 @@ Ltac prologue Hinv :=
 Lemma step_of_write s f b : orefa_inv s -> orefa_inv (fst (fst (of_write s f b))).
 Proof.
   intros Hinv. unfold of_write. prologue Hinv.
-  destruct (on_dir nd || negb (has (hd_mode f) OpenWrite)); [exact Hinv|]. cbn [fst]. apply inv_upd_data; assumption.
+  destruct (on_dir nd || negb (has (hd_mode f) OpenWrite)); [exact Hinv|]. destruct b; [exact Hinv|].
+  cbn [fst]. apply inv_upd_data; assumption.
 Qed.
 
 Lemma step_of_write_at s f b off : orefa_inv s -> orefa_inv (fst (of_write_at s f b off)).
 Proof.
-  intros Hinv. unfold of_write_at. destruct (Z.ltb off 0); [exact Hinv|]. prologue Hinv.
+  intros Hinv. unfold of_write_at. destruct (Z.ltb off 0); [exact Hinv|]. destruct b; [exact Hinv|]. prologue Hinv.
   destruct (on_dir nd || negb (has (hd_mode f) OpenWrite)); [exact Hinv|]. cbn [fst]. apply inv_upd_data; assumption.
 Qed.
 
